@@ -346,7 +346,7 @@ def gen_cases(rng, tier):
     #      rows wider than 128 pixels (every row is coded separately), two-byte samples, three planes
     runlens = [1, 1, 2, 3, 5, 126, 127, 128, 129, 130, 255, 256, 257, 258]
     widths = [1, 2, 127, 128, 129, 130, 200, 255, 256, 257, 258, 300]
-    for i in range({'quick': 30, 'thorough': 400, 'search': 200}[tier]):
+    for i in range({'quick': 30, 'thorough': 120, 'search': 60}[tier]):      # (the model decoder is quadratic)
         colour = i % 5 == 4
         s = 3 if colour else 1
         ba = 16 if i % 3 == 2 else 8
@@ -354,7 +354,7 @@ def gen_cases(rng, tier):
         bs = ba if rng.random() < 0.6 else rng.randint(max(1, ba - 7), ba)
         dt = {(8, 0): 'uint8', (16, 0): 'uint16', (8, 1): 'int8', (16, 1): 'int16'}[(ba, pr)]
         cols = widths[i % len(widths)] if not colour else rng.choice([3, 64, 129, 130])
-        rows = rng.choice([1, 2, 3]) if cols * s * (ba // 8) < 500 else 1
+        rows = rng.choice([1, 2, 3]) if cols * s * (ba // 8) < 300 else 1
         lo, hi = _stored_range(bs, pr)
         pool = [lo, hi, 0, min(hi, 1), min(hi, 255), rng.randint(lo, hi), rng.randint(lo, hi)]
         if ba == 16 and rng.random() < 0.5:      # equal low bytes, differing high bytes (and vice versa)
